@@ -522,6 +522,9 @@ def stmt_start_before(toks, i, lo):
     while k >= lo:
         t = toks[k]
         if t.kind == "punct":
+            if t.text == "}" and depth == 0:
+                # a block statement (if / while / match ... {}) that ended before this statement
+                return next_sig(toks, k + 1)
             if t.text in rslex.CLOSE: depth += 1
             elif t.text in rslex.OPEN:
                 if depth == 0: return next_sig(toks, k + 1)
